@@ -22,7 +22,8 @@ ASSUMPTIONS = [
     "augmented system [sqrt(W) J/s; sqrt(damping) I]; never scikit-learn, never the normal equations",
     "prediction agreement asserted within 256*kappa*eps*scale (undamped) or 256*kappa^2*eps*scale (damped, normal-equation solver), scale = |J_q| |p|; "
     "skipped (counted) when that bound exceeds 1e-6*scale",
-    "optimality asserted directly: objective at verde's parameters <= reference optimum * (1 + 1e-8) + sum(w) (64 kappa eps max|d|)^2, for kappa <= 1e10",
+    "optimality asserted directly: objective at verde's parameters <= reference optimum * (1 + 1e-8) + sum(w) (64 kappa eps max|d|)^2 (damped fits, solved "
+    "through the normal equations: plus sum(w) (64 kappa^2 eps max|d|)^2), for kappa <= 1e10",
     "under-determined undamped problems have no unique optimum and are skipped",
 ]
 K = 256.0
@@ -101,17 +102,17 @@ def judge(ctx, what, jac, jac_q, data, weights, damping, params, pred_q, kernel_
     p_ref, s, cond, obj_ref = kernels.reference_fit(jac, data, w, damping)
     if not cond <= 1e10:
         ctx.skip("ill_conditioned")
-    if damping is not None and K * cond**2 * EPS > 1e-6:
-        # verde solves damped problems through the normal equations (scikit-learn's Ridge): its round-off grows with kappa squared, and a damped
-        # problem with kappa^2 eps of 1e-9 or more is not "well conditioned" for that solver - the same bound that decides whether predictions
-        # are compared (ASSUMPTIONS).  Met in the thorough tier on eight collinear data points with damping 1e-7 (kappa 1e6, excess 7e-8 relative).
-        ctx.skip("damped_ill_conditioned_for_the_normal_equations")
     params = np.asarray(params, dtype="float64")
     ctx.check(params.shape == (jac.shape[1],), "%s: %d parameters expected, got shape %s", what, jac.shape[1], params.shape)
     ww = np.ones(data.size) if w is None else w
     obj = kernels.objective(jac / s, data, ww, damping, params * s)
     dmax = float(np.max(np.abs(data))) if data.size else 0.0
     slack = float(np.sum(ww)) * (64 * cond * EPS * dmax) ** 2 + 1e-290
+    if damping is not None:
+        # verde solves damped problems through the normal equations (scikit-learn's Ridge): the parameters carry a relative round-off of kappa^2 eps,
+        # the objective an excess of its square.  Negligible up to kappa ~ 1e5; met in the thorough tier on eight collinear data points with
+        # damping 1e-7 (kappa 1e6, excess 7e-8 relative; DESIGN 8.2)
+        slack += float(np.sum(ww)) * (64 * cond**2 * EPS * dmax) ** 2
     # round-off in *evaluating* the objective: each residual d - a.p is known to 16 eps |a|.|p| only (large, cancelling
     # parameters when the system is ill conditioned); found by the thorough tier at kappa ~ 5e8
     a_s = np.abs(jac / s)
